@@ -321,7 +321,10 @@ def conv (env : List (String × Ty)) : H → M R
           -- z3.If(a >= 0, a, -a): the literal 0 is coerced to the sort of a
           let zero : Z := if isReal then .rlit 0 else .ilit 0
           pure (.z (.ite (.ge e zero) e (.neg e)))
-      | .pi n => pure (.z (.ite (.bconst (decide (0 ≤ n))) (.ilit n) (.ilit (-n))))
+      | .pi n =>
+          -- a Python int comes from a nat/int literal only (real literals are Z3 numerals)
+          if isReal then failM .crash
+          else pure (.z (.ite (.bconst (decide (0 ≤ n))) (.ilit n) (.ilit (-n))))
       | .pb _ => failM .crash
   | .app f dom cod a => do
       let a' ← conv env a
